@@ -11,7 +11,8 @@ RULE = ("histories of 1-4 composition calls on a random parent (<= 9 nodes, some
         "children (<= 7 nodes, optionally containing a flip-flop blackbox): add_subcircuit with arbitrary connection maps (child inputs "
         "fed from any net incl. nodes of earlier instances, child outputs driving 1-2 undriven buffers, unconnected io, str and list "
         "values, strip_io on/off), repeated instantiation, add_blackbox + fill_blackbox (two instances filled in either order, nested "
-        "fill of a child's blackbox), strip_blackboxes with ignore_pins None/str/list, and a rejection stream (clashing node / registry "
+        "fill of a child's blackbox), strip_blackboxes with ignore_pins None/str/list (incl. instances a.b / a_b whose pins collide after renaming and cells "
+        "whose pin names are suffixes of one another: D/SD, O/CO, q/nq on input and output side), and a rejection stream (clashing node / registry "
         "names, unknown keys, io mismatch, illegal connections); every step is one observation (state before, arguments, state after, "
         "outcome); non-trivial = an accepted call that attaches at least one net or fills/strips a blackbox; distinct = canonical case hash")
 EXPLANATION = ("specifications of add_subcircuit, add_blackbox, fill_blackbox, strip_blackboxes proved over the API model (structure, registry, "
@@ -57,6 +58,8 @@ def gen_child(rng, flop=False, clean_io=False, prefix=None):
         for n in d["nodes"]:
             if n[1] == "input":
                 n[2] = False
+    elif rng.random() < 0.2:
+        rng.choice([n for n in d["nodes"] if n[1] == "input"])[2] = True      # an io key that is input AND output: attached as an input
     if flop:
         d = lib.add_flop(rng, d, inst="ff0", clk="ck")
     return d
@@ -155,6 +158,44 @@ def scen_strip(rng):
     return {"parent": p, "ops": ops, "kind": "strip"}
 
 
+def add_cell(rng, d, inst, bbname, ins, outs, unconnected=0.15):
+    """Splice a blackbox instance with arbitrary pin names into a dump: input pins driven by existing nodes, each output pin
+    driving a fresh buffer that is marked output or feeds a new gate."""
+    d = json.loads(json.dumps(d))
+    names = [n[0] for n in d["nodes"]]
+    for p in ins:
+        d["nodes"].append([f"{inst}.{p}", "bb_input", False, [] if rng.random() < unconnected else [rng.choice(names)]])
+    for p in outs:
+        d["nodes"].append([f"{inst}.{p}", "bb_output", False, []])
+        if rng.random() > unconnected:
+            b = f"{inst}_{p}_buf"
+            d["nodes"].append([b, "buf", rng.random() < 0.6, [f"{inst}.{p}"]])
+            if rng.random() < 0.5:
+                d["nodes"].append([f"{inst}_{p}_g", rng.choice(lib.MULTI), True, sorted({b, rng.choice(names)})])
+    d["bbs"] = d.get("bbs", []) + [[inst, bbname, sorted(ins), sorted(outs)]]
+    return d
+
+
+SUFFIX_CELLS = [(["D", "SD", "CK"], ["Q", "NQ"]), (["I", "CI"], ["O", "CO"]), (["d", "sd"], ["q", "nq"]), (["en", "den"], ["y", "ny", "y2"])]
+
+
+def scen_strip_suffix(rng):
+    """pins whose names are suffixes of one another (D / SD, O / CO, q / nq): ignore_pins must match the whole pin name"""
+    p = gen_parent(rng, holes=rng.randint(0, 1))
+    ins, outs = rng.choice(SUFFIX_CELLS)
+    p = add_cell(rng, p, rng.choice(["u1", "ff", "x.y"]), "cell", ins, outs)
+    if rng.random() < 0.3:
+        ins2, outs2 = rng.choice(SUFFIX_CELLS)
+        p = add_cell(rng, p, "u2", "cell2", ins2, outs2)
+    short_i = min(ins, key=len)
+    short_o = min(outs, key=len)
+    long_i = max(ins, key=len)
+    long_o = max(outs, key=len)
+    ign = rng.choice([short_i, [short_i], short_o, [short_o], [short_i, short_o], long_i, [long_o], [short_o, long_i],
+                      short_i.lower(), [short_i[-1:], "zz"], None])
+    return {"parent": p, "ops": [{"op": "strip", "ign": ign}], "kind": "strip-suffix"}
+
+
 def scen_reject(rng):
     """the rejection stream: each history contains at least one call that must raise ValueError"""
     p = gen_parent(rng)
@@ -221,12 +262,24 @@ def generate(rng, tier):
     out = []
     for _ in range(n):
         r = rng.random()
-        out.append(scen_sub(rng) if r < 0.4 else scen_fill(rng) if r < 0.65 else scen_strip(rng) if r < 0.8 else scen_reject(rng))
+        out.append(scen_sub(rng) if r < 0.38 else scen_fill(rng) if r < 0.62 else scen_strip(rng) if r < 0.74 else
+                   scen_strip_suffix(rng) if r < 0.84 else scen_reject(rng))
     return out
 
 
+WIDEN = 1                  # widened search: one more generated batch + the budgeted neighbourhood below
+_MUTATE_BUDGET = [40]
+
+
 def mutate_case(rng, case):
-    return generate(rng, "quick")[0]
+    """The framework asks for 40 neighbours per disagreeing (case, hash seed); a change that makes most cases disagree would
+    multiply the run time, so only 40 real neighbours (same scenario kind) are produced, the rest are skip markers."""
+    if _MUTATE_BUDGET[0] <= 0:
+        return {"kind": "skip", "parent": {"name": "top", "nodes": [], "bbs": []}, "ops": []}
+    _MUTATE_BUDGET[0] -= 1
+    k = case.get("kind", "sub").split(":")[0]
+    return {"sub": scen_sub, "fill": scen_fill, "strip": scen_strip, "strip-collide": scen_strip, "strip-suffix": scen_strip_suffix,
+            "reject": scen_reject}.get(k, scen_sub)(rng)
 
 
 # ---------------------------------------------------------------- implementation driver
